@@ -110,16 +110,16 @@ def guards(ctx, rule):
 def iterator(ctx, rule):
     b = ctx.body(ITER)
     calls = [q.shape(b.expr_of_call(t)) for bi, t in b.calls()]
-    ctx.check("Iterator::by_ref(arg1.range)" in calls and "RamBundle::get_module(arg1.ram_bundle,some(Iterator::next(var:&mut Range<usize>)))" in calls, rule, ITER, "ids-in-order", "ids are visited in increasing order through the stored range", detail=str(calls))
-    GM = "RamBundle::get_module(arg1.ram_bundle,some(Iterator::next(var:&mut Range<usize>)))"
+    ctx.check("Iterator::by_ref(arg1.range)" in calls and "RamBundle::get_module(arg1.ram_bundle,try(Iterator::next(var:&mut Range<usize>)))" in calls, rule, ITER, "ids-in-order", "ids are visited in increasing order through the stored range", detail=str(calls))
+    GM = "RamBundle::get_module(arg1.ram_bundle,try(Iterator::next(var:&mut Range<usize>)))"
     rets = [(bi, q.shape(b.expr_of_rvalue(s["rv"]))) for bi, si, s, it in b.locations() if not it and s["k"] == "assign" and s["place"]["l"] == 0 and not s["place"]["p"]]
     shapes = sorted(sh for _, sh in rets)
-    ctx.check(shapes == ["Option::None{}", "Option::Some{0:Result::Err{0:err(%s)}}" % GM, "Option::Some{0:Result::Ok{0:some(ok(%s))}}" % GM], rule, ITER, "yields", "present modules and errors are yielded, the end of the range ends the iteration", detail=str(shapes))
+    ctx.check(shapes == ["Option::None{}", "Option::Some{0:Result::Err{0:err(%s)}}" % GM, "Option::Some{0:Result::Ok{0:try(try(%s))}}" % GM], rule, ITER, "yields", "present modules and errors are yielded, the end of the range ends the iteration", detail=str(shapes))
     head = [bi for bi, t in q.calls_to(b, "Iterator::next")]
     # Ok(None) continues
     for d in range(len(b.blocks)):
         t = b.blocks[d]["term"]
-        if t["k"] == "switch" and q.shape(b.expr_of_operand(t["discr"])) == "discr(ok(%s))" % GM:
+        if t["k"] == "switch" and q.shape(b.expr_of_operand(t["discr"])) == "discr(try(%s))" % GM:
             none_t = [tb for v, tb in t["arms"] if v == 0]
             ctx.check(bool(none_t) and bool(head) and b.reaches(none_t[0], head[0]) and not any(bi in b.reachable_blocks(none_t[0], avoid=head) for bi, sh in rets), rule, ITER, "skip-empty", "empty slots (Ok(None)) are skipped")
     im = ctx.body("ram_bundle::RamBundle::<'a>::iter_modules")
